@@ -439,6 +439,85 @@ theorem accel_matches_neptune :
   rw [lead2_scaled _ _ _ _ Tables.Neptune.L_lead2]
   apply accel_of_bounds <;> norm_num [Spec.elemAccel, Neptune_ORBITAL_ELEM, expA]
 
+/-! ### The mean distance (partial form of "the radius vector lies between the perihelion and aphelion distance of
+the mean orbit").  FULL CLAUSE (measured only): a(1−e)·0.99 ≤ r(t) ≤ a(1+e)·1.01 for every epoch.  PROVED: the
+constant term of series R0 — the time average of the radius vector over the periodic terms — is the Keplerian
+average `a (1 + e²/2)` of the library's own mean elements, to 1e-5 a (Mercury … Mars), 1e-4 a (Jupiter), 2e-3 a
+(Saturn … Neptune, whose tabulated `a` are mean values over long-period terms).  A digit lost in the R0 constant,
+in `a` or in `e` breaks this.  MISSING: the amplitude of the periodic part (triangle inequality too loose). -/
+theorem mean_radius_mercury :
+    (∃ a : Int, (Tables.Mercury.R.getD 0 []).head? = some (a, 0, 0)) ∧
+    |Spec.meanRadius Mercury_VSOP87_R
+        - Spec.semiMajorAxis Mercury_ORBITAL_ELEM * (1 + Spec.elemEcc Mercury_ORBITAL_ELEM ^ 2 / 2)|
+      ≤ 0.00001 * Spec.semiMajorAxis Mercury_ORBITAL_ELEM := by
+  refine ⟨⟨_, Tables.Mercury.R_lead0⟩, ?_⟩
+  unfold Spec.meanRadius Mercury_VSOP87_R
+  rw [lead0_scaled _ _ _ _ Tables.Mercury.R_lead0]
+  norm_num [Spec.semiMajorAxis, Spec.elemEcc, Mercury_ORBITAL_ELEM, expA, abs_le]
+theorem mean_radius_venus :
+    (∃ a : Int, (Tables.Venus.R.getD 0 []).head? = some (a, 0, 0)) ∧
+    |Spec.meanRadius Venus_VSOP87_R
+        - Spec.semiMajorAxis Venus_ORBITAL_ELEM * (1 + Spec.elemEcc Venus_ORBITAL_ELEM ^ 2 / 2)|
+      ≤ 0.00001 * Spec.semiMajorAxis Venus_ORBITAL_ELEM := by
+  refine ⟨⟨_, Tables.Venus.R_lead0⟩, ?_⟩
+  unfold Spec.meanRadius Venus_VSOP87_R
+  rw [lead0_scaled _ _ _ _ Tables.Venus.R_lead0]
+  norm_num [Spec.semiMajorAxis, Spec.elemEcc, Venus_ORBITAL_ELEM, expA, abs_le]
+theorem mean_radius_earth :
+    (∃ a : Int, (Tables.Earth.R.getD 0 []).head? = some (a, 0, 0)) ∧
+    |Spec.meanRadius Earth_VSOP87_R
+        - Spec.semiMajorAxis Earth_ORBITAL_ELEM * (1 + Spec.elemEcc Earth_ORBITAL_ELEM ^ 2 / 2)|
+      ≤ 0.00001 * Spec.semiMajorAxis Earth_ORBITAL_ELEM := by
+  refine ⟨⟨_, Tables.Earth.R_lead0⟩, ?_⟩
+  unfold Spec.meanRadius Earth_VSOP87_R
+  rw [lead0_scaled _ _ _ _ Tables.Earth.R_lead0]
+  norm_num [Spec.semiMajorAxis, Spec.elemEcc, Earth_ORBITAL_ELEM, expA, abs_le]
+theorem mean_radius_mars :
+    (∃ a : Int, (Tables.Mars.R.getD 0 []).head? = some (a, 0, 0)) ∧
+    |Spec.meanRadius Mars_VSOP87_R
+        - Spec.semiMajorAxis Mars_ORBITAL_ELEM * (1 + Spec.elemEcc Mars_ORBITAL_ELEM ^ 2 / 2)|
+      ≤ 0.00001 * Spec.semiMajorAxis Mars_ORBITAL_ELEM := by
+  refine ⟨⟨_, Tables.Mars.R_lead0⟩, ?_⟩
+  unfold Spec.meanRadius Mars_VSOP87_R
+  rw [lead0_scaled _ _ _ _ Tables.Mars.R_lead0]
+  norm_num [Spec.semiMajorAxis, Spec.elemEcc, Mars_ORBITAL_ELEM, expA, abs_le]
+theorem mean_radius_jupiter :
+    (∃ a : Int, (Tables.Jupiter.R.getD 0 []).head? = some (a, 0, 0)) ∧
+    |Spec.meanRadius Jupiter_VSOP87_R
+        - Spec.semiMajorAxis Jupiter_ORBITAL_ELEM * (1 + Spec.elemEcc Jupiter_ORBITAL_ELEM ^ 2 / 2)|
+      ≤ 0.0001 * Spec.semiMajorAxis Jupiter_ORBITAL_ELEM := by
+  refine ⟨⟨_, Tables.Jupiter.R_lead0⟩, ?_⟩
+  unfold Spec.meanRadius Jupiter_VSOP87_R
+  rw [lead0_scaled _ _ _ _ Tables.Jupiter.R_lead0]
+  norm_num [Spec.semiMajorAxis, Spec.elemEcc, Jupiter_ORBITAL_ELEM, expA, abs_le]
+theorem mean_radius_saturn :
+    (∃ a : Int, (Tables.Saturn.R.getD 0 []).head? = some (a, 0, 0)) ∧
+    |Spec.meanRadius Saturn_VSOP87_R
+        - Spec.semiMajorAxis Saturn_ORBITAL_ELEM * (1 + Spec.elemEcc Saturn_ORBITAL_ELEM ^ 2 / 2)|
+      ≤ 0.002 * Spec.semiMajorAxis Saturn_ORBITAL_ELEM := by
+  refine ⟨⟨_, Tables.Saturn.R_lead0⟩, ?_⟩
+  unfold Spec.meanRadius Saturn_VSOP87_R
+  rw [lead0_scaled _ _ _ _ Tables.Saturn.R_lead0]
+  norm_num [Spec.semiMajorAxis, Spec.elemEcc, Saturn_ORBITAL_ELEM, expA, abs_le]
+theorem mean_radius_uranus :
+    (∃ a : Int, (Tables.Uranus.R.getD 0 []).head? = some (a, 0, 0)) ∧
+    |Spec.meanRadius Uranus_VSOP87_R
+        - Spec.semiMajorAxis Uranus_ORBITAL_ELEM * (1 + Spec.elemEcc Uranus_ORBITAL_ELEM ^ 2 / 2)|
+      ≤ 0.002 * Spec.semiMajorAxis Uranus_ORBITAL_ELEM := by
+  refine ⟨⟨_, Tables.Uranus.R_lead0⟩, ?_⟩
+  unfold Spec.meanRadius Uranus_VSOP87_R
+  rw [lead0_scaled _ _ _ _ Tables.Uranus.R_lead0]
+  norm_num [Spec.semiMajorAxis, Spec.elemEcc, Uranus_ORBITAL_ELEM, expA, abs_le]
+theorem mean_radius_neptune :
+    (∃ a : Int, (Tables.Neptune.R.getD 0 []).head? = some (a, 0, 0)) ∧
+    |Spec.meanRadius Neptune_VSOP87_R
+        - Spec.semiMajorAxis Neptune_ORBITAL_ELEM * (1 + Spec.elemEcc Neptune_ORBITAL_ELEM ^ 2 / 2)|
+      ≤ 0.002 * Spec.semiMajorAxis Neptune_ORBITAL_ELEM := by
+  refine ⟨⟨_, Tables.Neptune.R_lead0⟩, ?_⟩
+  unfold Spec.meanRadius Neptune_VSOP87_R
+  rw [lead0_scaled _ _ _ _ Tables.Neptune.R_lead0]
+  norm_num [Spec.semiMajorAxis, Spec.elemEcc, Neptune_ORBITAL_ELEM, expA, abs_le]
+
 /-! ### `orbital_elements`: which rows of which table -/
 
 /-- `orbital_elements(epoch, ORBITAL_ELEM, ORBITAL_ELEM_J2000)` (the `len(parameters2) == 4` branch): L, i, Ω, ϖ are
